@@ -11,7 +11,7 @@ import json
 from mon import refbufr as R
 from mon.compare import opsig, jsonable
 from mon.gen import cases
-from mon import handover
+from mon import handover, forms
 
 ID = 'C02'
 LEVEL = 'exploration'
@@ -108,6 +108,9 @@ def check_case(ctx, enc, msg, origin, name=None, label='plain', self_ok=None):
     for op in msg.ops:
         ctx.add('operators', op)
     ctx.add('editions', msg.edition)
+    if label == 'plain' and ctx.counters['evaluations'] % 5 == 0:
+        # the same values given in the other forms a caller may use (parsed lists, tuples, 5 for 5.0, indented text)
+        forms.encoder_forms(ctx, json.loads(json.dumps(fj)), 'encode/' + mode, dict(spec, origin=origin))
     if label == 'plain':
         # the message object the Encoder returns for python lists, and the lists themselves, taken through further operations:
         # every later encoding still gives these bytes
